@@ -209,6 +209,53 @@ func ruleCanonicalVote(c *Ctx) {
 			c.Check(regexp.MustCompile(re).MatchString(got[fld]), "types.CanonicalizeVote sets "+fld, w.pos(f.Pos()), fld+" = "+got[fld], "canonical vote field "+fld+" is set from '"+got[fld]+"'")
 		}
 	}
+	// CanonicalizeBlockID: only the all-zero block id canonicalises to "nil vote" (no block id in the sign
+	// bytes); anything else contributes its hash and its part-set header. If a non-zero id could collapse to
+	// the nil encoding, genuine nil precommits would verify as signatures for that id.
+	if f := c.fn("types", "CanonicalizeBlockID"); f != nil {
+		fk := funcKey(f)
+		full := guardAny("the block id is entirely zero (or absent)", guardRe("z", `^true\(.*\.IsZero\(\)\)$`), guardRe("n", `^nil\(types\.BlockIDFromProto\(bid\)#0\)$`))
+		for _, r := range returnsOf(f) {
+			ret := r.(*ssa.Return)
+			var visit func(v ssa.Value, pred, blk *ssa.BasicBlock, at ssa.Instruction, d int)
+			visit = func(v ssa.Value, pred, blk *ssa.BasicBlock, at ssa.Instruction, d int) {
+				if d > 3 {
+					return
+				}
+				if phi, ok := v.(*ssa.Phi); ok {
+					for i, e := range phi.Edges {
+						p := phi.Block().Preds[i]
+						visit(e, p, phi.Block(), p.Instrs[len(p.Instrs)-1], d+1)
+					}
+					return
+				}
+				if isNilConst(v) {
+					var ok bool
+					if pred != nil {
+						ok, _ = c.ge().guardedEdge(f, pred, blk, full, 2)
+					} else {
+						ok, _ = c.ge().guardedLocal(f, at, full, 2)
+					}
+					c.Check(ok, fk+" :: canonical nil block id <= "+full.Name, w.ipos(at), "only the zero id signs as nil", "a block id that is not entirely zero can canonicalise to the nil-vote encoding")
+				}
+			}
+			visit(ret.Results[0], nil, nil, ret, 0)
+		}
+		hs := findStore("&complit.Hash", `bid\.Hash`)(w, f)
+		ps := findStore("&complit.PartSetHeader", `types\.CanonicalizePartSetHeader\(bid\.PartSetHeader\)`)(w, f)
+		c.Check(len(hs) == 1 && len(ps) == 1, fk+" :: a non-zero id contributes hash and part-set header", w.pos(f.Pos()), "Hash and PartSetHeader copied", "the canonical block id no longer carries both the hash and the part-set header")
+	}
+	if g := c.fn("types", "BlockID.IsZero"); g != nil {
+		rv := returnValues(g, 0)
+		ok := len(rv) == 1 && strings.Contains(w.expr(rv[0]), ".PartSetHeader.IsZero()")
+		has := false
+		for _, ea := range condEdges(g) {
+			if guardCmp("h", `len\(\w+\.Hash\)`, "==", "0").Match(w, g, ea.A) {
+				has = true
+			}
+		}
+		c.Check(ok && has, funcKey(g)+" = empty hash AND zero part-set header", w.pos(g.Pos()), "both", "BlockID.IsZero no longer requires both the hash and the part-set header to be empty")
+	}
 	if f := c.fn("types", "Commit.GetVote"); f != nil {
 		got := map[string]string{}
 		for _, b := range f.Blocks {
@@ -286,7 +333,7 @@ func init() {
 	register("C07", "R1", "K1+K11", "every commit verifier tallies only verified for-block signatures of the slot's validator, with its preconditions, and accepts only on a strict threshold", 26, ruleCommitTally)
 	register("C07", "R5", "K5+K1", "commit construction agrees with commit verification: a vote becomes a for-block signature of the commit only if its full block id (hash and part-set header) equals the commit's", 4, ruleMakeCommit)
 	register("C07", "R6", "K3+K10", "the total a threshold is taken from is always recomputed from the members (never taken from the wire), and the trust-level product is overflow-checked by division", 6, ruleTotalPower)
-	register("C07", "R4", "K4", "canonical sign bytes bind type, height, round, block id, timestamp and chain id; nil/absent signatures never sign the commit's block id", 14, ruleCanonicalVote)
+	register("C07", "R4", "K4", "canonical sign bytes bind type, height, round, block id, timestamp and chain id; nil/absent signatures never sign the commit's block id; only the all-zero block id signs as nil", 16, ruleCanonicalVote)
 	// agreement (C01) rests on the same commit verification: block sync and the light client decide through it
 	register("C01", "R8", "K1+K11", "commit verification used by block sync / light clients: tally and strict threshold (same rule as C07.R1)", 26, ruleCommitTally)
 }
